@@ -8,6 +8,8 @@ import (
 	"sort"
 	"strings"
 	"time"
+
+	"golang.org/x/tools/go/callgraph"
 )
 
 // Verdicts of one obligation.
@@ -271,4 +273,15 @@ func (c *Ctx) Merge(o *Ctx) {
 		ob.Construct = ob.Construct + " [" + o.Variant + "]"
 		c.Obs = append(c.Obs, ob)
 	}
+}
+
+
+// Graph returns the call graph used for reachability obligations: VTA (most precise
+// available) in the quick tier; CHA, a superset and therefore more conservative, in the
+// thorough tier.
+func (c *Ctx) Graph() *callgraph.Graph {
+	if c.Tier == "thorough" {
+		return c.P.CHA()
+	}
+	return c.P.VTA()
 }
